@@ -83,12 +83,14 @@ PROPS["C01"] = dict(
 )
 
 # ------------------------------------------------------------------------------------------------ C02
-def compare_digests(label):
-    """post hook: every run of the check must report identical per-stream outcome digests"""
+def compare_digests(label, prefix=None):
+    """post hook: every run of the check (whose name starts with prefix: runs of one build under different heap fills)
+    must report identical per-stream outcome digests.  Runs of other builds are not compared: the SSE and AVX2 kernels may
+    name different fault kinds inside one malformed string literal (C15's exemption)."""
     def post(ctx):
         out = []
         dg = ctx["digests"]
-        names = sorted(dg)
+        names = sorted(n for n in dg if prefix is None or n.startswith(prefix))
         if len(names) < 2:
             return out
         ref = names[0]
@@ -103,7 +105,7 @@ def compare_digests(label):
 
 
 PROPS["C02"] = dict(
-    post=compare_digests("outcome-depends-on-heap-fill"),
+    post=compare_digests("outcome-depends-on-heap-fill", prefix="asan-fill-"),
     title="Parse is total and memory-safe for every allocator kind",
     rule=("C01's unknown-validity corpus plus reuse histories (2-8 steps of Parse valid/invalid, mutation, move, Swap, "
           "ParseOnDemand, Dump on one document) on pool / adaptive pool / malloc-free / ledger allocators, parses on a pool that lives in "
@@ -111,8 +113,12 @@ PROPS["C02"] = dict(
           "under several ASan heap-fill bytes (0x06/0x07/0x0c are node type tags) so that acting on unconstructed memory "
           "changes behaviour; oracles: ASan+LSan, ledger, follow-up results vs reference; distinct = hash of input bytes"),
     runs=[dict(name="asan-fill-%02x" % b, src="parse_harness.cpp", cfg="asan-hsw", args=["--prop", "C02"], env=fill_env(b),
-               tiers=("quick", "thorough") if b in FILLS_QUICK else ("thorough",)) for b in FILLS_ALL],
-    require=["c02:histories", "c02:followups-after-failed-parse", "c02:ledger-quiescent-checks", "rejected", "accepted",
+               tiers=("quick", "thorough") if b in FILLS_QUICK else ("thorough",)) for b in FILLS_ALL] + [
+        # the SSE kernels (static build and the dispatcher's SSE arm) under ASan
+        dict(name="asan-wsm-fill-22", src="parse_harness.cpp", cfg="asan-wsm", args=["--prop", "C02"], env=fill_env(0x22)),
+        dict(name="asan-dyn-nohsw-fill-5d", src="parse_harness.cpp", cfg="asan-dyn+SONIC_VERIF_DISPATCH_NO_HASWELL", args=["--prop", "C02"], env=fill_env(0x5d)),
+    ],
+    require=["adaptive-pool:small-start-meets-large-text", "c02:histories", "c02:followups-after-failed-parse", "c02:ledger-quiescent-checks", "rejected", "accepted",
              "c02:parses-on-user-buffer-pool", "c02:user-buffer-misaligned"],
     assumptions=["ASan red zones / quarantine observe the executed accesses only; heap-fill sweep replaces definedness tracking"],
 )
